@@ -14,7 +14,8 @@ import time
 from .driver import ROOT, VENV_PY, repo_path, load_json
 
 
-def run_harness(run, script, tier, args=(), timeout=None):
+def run_harness(run, script, tier, args=(), timeout=None, only=None):
+    """Run a harness; `only` is an optional predicate on obligation ids (a harness may serve several properties)."""
     env = dict(os.environ, VERIF_REPO=repo_path(), PYTHONPATH=repo_path() + os.pathsep + ROOT, VERIF_TIER=tier,
                VERIF_SEED=str(run.seed))
     t0 = time.time()
@@ -34,6 +35,10 @@ def run_harness(run, script, tier, args=(), timeout=None):
         return None
     res["wall_s"] = round(time.time() - t0, 2)
     res["script"] = script
+    if only is not None:
+        res["obligations"] = {k: v for k, v in (res.get("obligations") or {}).items() if only(k)}
+        res["failures"] = [f for f in res.get("failures", []) if only(f.get("obligation", ""))]
+        res["filtered_for_property"] = True
     record(run, res)
     return res
 
